@@ -5,8 +5,8 @@ from vlib import Broken, log
 from fam_comp import validate_obs, report
 
 PARTS = ["read", "write", "instance", "newdigest", "roundtrip", "keys", "sets"]
-QUICK_SAMPLE = {"read": 9000, "write": 9000, "sets": 5000, "keys": 2000}
-THOROUGH_SAMPLE = {"sets": 80000}
+QUICK_SAMPLE = {"read": 9000, "write": 9000, "keys": 2000}
+THOROUGH_SAMPLE = {}
 
 
 def dig_cfg(part, muts=1, emit=True):
@@ -65,5 +65,5 @@ def check(pid, tier, replay=None):
                         ["resource names are generated as token sequences: every documented form (3 instance names x identity / zstd / deflate x 8 digest functions x 3 sizes, uploads with and without trailing path) and every single deletion, replacement, insertion (34-token alphabet), swap and truncation; double mutations sampled in the thorough tier",
                          "redundant slashes and trailing components on read paths, an explicit plus sign and leading zeros in sizes are tolerated by the contract (upstream accepts them by design); instance names must reject redundant slashes",
                          "arbitrary byte strings are covered by a seeded mutation fuzzer whose verdict (no panic, accepted input is stable under format / parse) is also evaluated by the TLC monitor",
-                         "set algebra over a universe of four digests (two differing only in instance name, one the empty blob), all triples of subsets"])
+                         "set algebra over a universe of five digests (one object and the empty blob under two instance names each, so that instance names interleave in sorted order, plus an object under a third name): all pairs of subsets x four third operands, all sequences of <=3 additions"])
     return 1 if violations else 0
